@@ -740,6 +740,29 @@ def lenient_json_matrix():
     return out
 
 
+def abandoned_sessions():
+    """the same Transport object used for several sessions: every session but the last is LEFT with a request in flight
+    (the caller's timeout fires while the server is slow, the block is left at once), then the last session runs a normal
+    conversation, which must come out as on the other carriers.  Crossed with every concurrency-like option of the
+    parameter classes at its minimum (one abandoned session suffices to use it up) and at its default (11 abandoned)."""
+    out = []
+    minimal = [{"http": {"max_concurrent_requests": 1}}, {"http": {"max_concurrent_requests": 1, "max_retries": 0, "retry_delay": 0.0}},
+               {"sse": {"auto_reconnect": False, "max_reconnect_attempts": 0}}, {"http": {"enable_streaming": False, "max_concurrent_requests": 1}}]
+    plan = [(n, o) for o in minimal for n in (1, 2)] + [(11, None), (2, None), (11, {"sse": {"max_reconnect_attempts": 0}})]
+    for k, (n, opts) in enumerate(plan):
+        xs = [{"call": {"h": "raw", "id": {"s": f"abandoned-{j}"} if (j + k) % 2 else {"i": 9000 + j}, "method": "tools/call", "params": None},
+               "notifs": [], "reply": {"result": {"late": j}}, "lat": 200, "gap": 1, "D": 5, "abandoned": True} for j in range(n)]
+        xs.append({"call": {"h": "send_message", "method": "tools/list", "params": None}, "notifs": [{"method": "x", "params": {"data": "\u00e9"}}],
+                   "reply": {"result": {"t": "\u00e9"}}, "lat": 1, "gap": 1, "idle": 200 * n + 400})
+        xs.append({"call": {"h": "send_ping"}, "notifs": [], "reply": {"error": {"code": 1, "message": "m"}} if k % 2 else {"result": {}}, "lat": 1, "gap": 1})
+        c = {"xs": xs, "style": STYLES[k % len(STYLES)], "D": 5120, "tie": TIES[k % len(TIES)], "via": "transport",
+             "sessions": list(range(1, n + 1)), "abandon": True, "wire": {"json": {"all": True}}}
+        if opts:
+            c["opts"] = opts
+        out.append(c)
+    return out
+
+
 def long_sessions(rng, names, budget):
     """long sessions on ONE connection: more than 100 notifications accumulated over many exchanges (nobody
     reads stdio's legacy notification stream: its 100-slot buffer fills), many consecutive requests"""
@@ -990,6 +1013,8 @@ def shrink_candidates(case):
             c = copy.deepcopy(case)
             del c["xs"][i]
             c.pop("wire", None)
+            if c.get("sessions"):
+                c["sessions"] = [b for b in sorted({(b - 1 if b > i else b) for b in c["sessions"]}) if 0 < b < len(c["xs"])]
             yield c
     if case.get("wire"):
         c = copy.deepcopy(case)
